@@ -23,7 +23,7 @@ var cK = vt.New("C12", "known-probes")
 
 var childProbes int64
 
-var knownKinds = []string{"escaped-ref-rewritten", "nested-expanded-value/leak", "nested-expanded-value/panic", "hang/cycle-doubling", "empty-top-level-key"}
+var knownKinds = []string{"nested-expanded-value/leak", "nested-expanded-value/panic", "hang/cycle-doubling", "empty-top-level-key"}
 
 func genK(t *rapid.T) KScript {
 	kind := rapid.SampledFrom(knownKinds).Draw(t, "kind")
@@ -33,11 +33,6 @@ func genK(t *rapid.T) KScript {
 	}
 	k := KScript{Kind: kind}
 	switch kind {
-	case "escaped-ref-rewritten":
-		// "${aa:x} $${aa:x}": the escaped occurrence must stay "${aa:x}"
-		val := rapid.SampledFrom([]string{"XV", "0123", "", "true", "a b", "1.50"}).Draw(t, "val")
-		seq := []Seg{smallLit("pre"), ref("x"), smallLit("mid"), {K: "escref", T: "aa:x"}, smallLit("post")}
-		k.X = &XScript{Probe: kind, Table: []Entry{{"aa:x", seqVal(lit(val))}}, Fields: []Field{{"s1", Val{K: "seq", Seq: repair(seq)}}}}
 	case "nested-expanded-value/leak", "nested-expanded-value/panic":
 		// m: ${aa:m}, where aa:m is a map/list with a leaf "${aa:n}" and aa:n is not a string
 		pool := append(append([]string{}, intPool...), "true", "1.50")
